@@ -33,11 +33,29 @@ func (k *Keeper) SetRateLimit(ctx sdk.Context, rateLimit types.RateLimit) {
 }
 
 // Removes a rate limit object from the store using denom and channel-id
+// The pending packet sequence numbers of the path are removed as well: they only have a
+// meaning relative to the quota window that is discarded here, and must not be matched
+// against the window of a rate limit that is added for the same path later.
 func (k *Keeper) RemoveRateLimit(ctx sdk.Context, denom string, channelID string) {
 	adapter := runtime.KVStoreAdapter(k.storeService.OpenKVStore(ctx))
 	store := prefix.NewStore(adapter, types.RateLimitKeyPrefix)
 	rateLimitKey := types.RateLimitItemKey(denom, channelID)
 	store.Delete(rateLimitKey)
+
+	if err := k.removeAllChannelPendingPackets(ctx, channelID, denom); err != nil {
+		k.Logger(ctx).Error("Unable to remove pending packets of removed rate limit", "Denom", denom, "ChannelOrClientId", channelID, "error", err)
+	}
+}
+
+// removeAllChannelPendingPackets removes the pending send and receive markers of a path.
+// It must be called whenever a new quota window starts (or the rate limit is removed), so
+// that a packet of an older window is never subtracted from the flow of the current one.
+func (k *Keeper) removeAllChannelPendingPackets(ctx sdk.Context, channelID string, denom string) error {
+	if err := k.RemoveAllChannelPendingSendPackets(ctx, channelID, denom); err != nil {
+		return err
+	}
+
+	return k.RemoveAllChannelPendingReceivePackets(ctx, channelID, denom)
 }
 
 // Grabs and returns a rate limit object from the store using denom and channel-id
@@ -137,7 +155,8 @@ func (k *Keeper) UpdateRateLimit(ctx sdk.Context, msg *types.MsgUpdateRateLimit)
 	}
 
 	// Update the rate limit object with the new quota information
-	// The flow should also get reset to 0
+	// The flow should also get reset to 0, and, as for any new quota window,
+	// all pending packet sequence numbers should be removed
 	path := types.Path{
 		Denom:             msg.Denom,
 		ChannelOrClientId: msg.ChannelOrClientId,
@@ -159,7 +178,7 @@ func (k *Keeper) UpdateRateLimit(ctx sdk.Context, msg *types.MsgUpdateRateLimit)
 		Flow:  &flow,
 	})
 
-	return nil
+	return k.removeAllChannelPendingPackets(ctx, msg.ChannelOrClientId, msg.Denom)
 }
 
 // Reset the rate limit after expiration
@@ -179,9 +198,6 @@ func (k *Keeper) ResetRateLimit(ctx sdk.Context, denom string, channelID string)
 	rateLimit.Flow = &flow
 
 	k.SetRateLimit(ctx, rateLimit)
-	if err := k.RemoveAllChannelPendingSendPackets(ctx, channelID, denom); err != nil {
-		return err
-	}
 
-	return k.RemoveAllChannelPendingReceivePackets(ctx, channelID, denom)
+	return k.removeAllChannelPendingPackets(ctx, channelID, denom)
 }
